@@ -195,8 +195,8 @@ def c01_jobs(tier):
     if tier == "quick":
         return [dict(harness="sym_glue", pattern=r"^sym/n4k2m3/[A-Za-z]+/LargestAlge/maxit[01]/ic(/symtol)?$|^symshift/n4k2m3/.*/maxit[01]/|^hist/n3k1m2/.*/maxit[01]/|^sym/n3k1m2/.*/maxit2/ic$",
                      label="symmetric glue (4,2,3) maxit<=1, (3,1,2) maxit<=2, histories", deadline=280)]
-    return [dict(harness="sym_glue", pattern=r"^(sym|symshift)/n(4k2m3|3k1m2|5k2m4|5k3m4|6k1m3)/.*/maxit[012]/|^hist/n(3k1m2|4k2m3)/.*/maxit[012]/|^sym/n3k1m2/.*/maxit3/", label="symmetric glue, maxit<=2(3)",
-                 deadline=3300)]
+    return c01_jobs("quick") + [dict(harness="sym_glue", pattern=r"^sym/n(5k2m4|5k3m4|6k1m3|6k2m5)/LargestMagn/LargestAlge/maxit[01]/ic$|^sym/n5k2m4/(BothEnds|SmallestAlge)/LargestAlge/maxit[01]/ic$|^hist/n4k2m3/.*/maxit0/|^sym/n3k1m2/.*/maxit3/ic$",
+                                     label="larger sizes (5,2,4) (5,3,4) (6,1,3) (6,2,5) maxit<=1, (3,1,2) maxit 3, histories (4,2,3)", deadline=2400)]
 
 
 SPECS["C01"] = dict(
@@ -225,7 +225,8 @@ def c02_jobs(tier):
     if tier == "quick":
         return [dict(harness="gen_glue", pattern=r"^gen/n5k1m3/[A-Za-z]+/LargestMagn/maxit[01]/ic$|^genshift/n5k1m3/.*/maxit[01]/|^genhist/n5k1m3/.*/maxit0/|^gen/n5k2m4/(LargestMagn/LargestMagn|LargestReal/SmallestReal|LargestMagn/SmallestImag)/maxit0/|^genshift/n5k2m4/.*/maxit0/",
                      label="general glue (5,1,3) maxit<=1, (5,2,4) maxit 0, histories", deadline=280)]
-    return [dict(harness="gen_glue", pattern=r"^(gen|genshift)/n(5k1m3|5k2m4)/.*/maxit[012]/|^gen/n(6k2m5|6k3m5|7k1m6)/.*/maxit[01]/|^genhist/n(5k1m3|5k2m4)/.*/maxit[01]/", label="general glue", deadline=3300)]
+    return c02_jobs("quick") + [dict(harness="gen_glue", pattern=r"^gen/n(5k2m4|6k2m5|6k3m5|7k1m6)/LargestMagn/LargestMagn/maxit[01]/ic$|^gen/n5k2m4/(LargestReal|SmallestImag)/LargestMagn/maxit1/ic$|^genhist/n5k1m3/.*/maxit1/",
+                                     label="larger sizes (5,2,4) (6,2,5) (6,3,5) (7,1,6) maxit<=1, histories maxit 1", deadline=2400)]
 
 
 SPECS["C02"] = dict(
@@ -254,8 +255,8 @@ def c05_jobs(tier):
                      label="symmetric: all sorting rules, accessors, counters", deadline=200),
                 dict(harness="gen_glue", pattern=r"^gen/n5k1m3/(LargestReal|LargestMagn)/(SmallestReal|SmallestImag)/maxit[01]/ic$|^genshift/n5k1m3/LargestReal/SmallestReal/maxit[01]/|^genhist/n5k1m3/.*/maxit0/|^gen/n5k2m4/LargestReal/SmallestReal/maxit0/|^genshift/n5k2m4/LargestReal/SmallestReal/maxit0/",
                      label="general: sorting rules, accessors, counters", deadline=200)]
-    return [dict(harness="sym_glue", pattern=r"^(sym|symshift|hist)/n(3k1m2|4k2m3|5k2m4)/.*/maxit[012]/", label="symmetric", deadline=3000),
-            dict(harness="gen_glue", pattern=r"^(gen|genshift|genhist)/n(5k1m3|5k2m4)/.*/maxit[01]/", label="general", deadline=3000)]
+    return c05_jobs("quick") + [dict(harness="sym_glue", pattern=r"^sym/n5k2m4/LargestMagn/(LargestMagn|SmallestAlge|SmallestMagn)/maxit[01]/ic$|^symshift/n5k2m4/.*/maxit[01]/", label="symmetric (5,2,4)", deadline=2400),
+                                dict(harness="gen_glue", pattern=r"^gen/n5k2m4/(LargestReal/SmallestReal|LargestMagn/SmallestImag)/maxit1/ic$|^genshift/n5k2m4/.*/maxit1/", label="general (5,2,4) maxit 1", deadline=2400)]
 
 
 SPECS["C05"] = dict(
@@ -283,9 +284,9 @@ def c04_jobs(tier):
          dict(harness="c08_qr", pattern=r"^tridiag-exact-shift/n2", label="exact-shift deflation", deadline=100)]
     if tier == "quick":
         return q
-    return [dict(harness="sym_glue", pattern=r"^(full|fullshift)/|^sym/n(5k2m4|5k3m4|6k2m5)/.*/maxit[01]/ic$", label="symmetric", deadline=3000),
-            dict(harness="gen_glue", pattern=r"^(genfull|genfullshift)/|^gen/n(5k2m4|6k2m5|6k3m5)/.*/maxit[01]/ic$", label="general", deadline=3000),
-            dict(harness="c08_qr", pattern=r"^tridiag-exact-shift/", label="exact-shift deflation", deadline=600)]
+    return q + [dict(harness="sym_glue", pattern=r"^sym/n(5k3m4|6k2m5)/(LargestMagn|BothEnds|SmallestAlge)/LargestAlge/maxit[01]/ic$", label="symmetric: larger sizes", deadline=2400),
+                dict(harness="gen_glue", pattern=r"^gen/n(6k2m5|6k3m5)/(LargestMagn|LargestReal)/LargestMagn/maxit[01]/ic$", label="general: larger sizes", deadline=2400),
+                dict(harness="c08_qr", pattern=r"^tridiag-exact-shift/n3", label="exact-shift deflation n=3", deadline=600)]
 
 
 SPECS["C04"] = dict(
@@ -313,6 +314,7 @@ def c13_jobs(tier):
          dict(harness="gen_glue", pattern=(r"^gennevadj/k\dm[3-6]/" if tier == "quick" else r"^gennevadj/"), label="restart-size function (general), ncv<=6 (thorough 8), ncv-nev<=4", deadline=(200 if tier == "quick" else 900), sanitize=True),
          dict(harness="sym_glue", pattern=r"^sym/n(6k1m3|4k2m3)/LargestMagn/LargestAlge/maxit1/ic$|^sym/n6k2m5/LargestMagn/LargestAlge/maxit0/ic$", label="whole runs under ASan/UBSan (symmetric)", deadline=200, sanitize=True),
          dict(harness="gen_glue", pattern=r"^gen/n5k1m3/LargestImag/LargestMagn/maxit1/ic$|^gen/n6k2m5/LargestMagn/LargestMagn/maxit0/ic$", label="whole runs under ASan/UBSan (general)", deadline=200, sanitize=True)]
+    q.append(dict(harness="c07_krylov", pattern=r"^lanczos-step/n3/k2/zero$|^arnoldi-step/n3/k[12]/regular$|^(arnoldi|lanczos)-init/n2/v[01]$", label="definedness (division / sqrt) obligations inside the real Krylov kernels (shared with C07)", deadline=200))
     if tier == "quick":
         return q
     return q + [dict(harness="sym_glue", pattern=r"^sym/n(6k2m5|7k1m6|5k3m4)/LargestMagn/LargestAlge/maxit1/ic$", label="whole runs, larger sizes (symmetric)", deadline=3000, sanitize=True),
